@@ -318,22 +318,23 @@ Section Proofs.
 
   (* ---------------------------------------------------------------- wrong passphrase *)
   Local Ltac fin I :=
-    split; [reflexivity|]; split; [exact I|];
-    split; [intros inp0 N0 W0 | intros inp0 u0 a0 h0 N0 E0 S0 A0 H0 G0]; injection N0 as <-.
-  Lemma sign_input_wrong st p f t i : Inv st -> p <> right ->
+    split; [reflexivity|]; split; [exact I|]; split; [intros W0 | intros u0 a0 h0 E0 S0 A0 H0 G0].
+
+  Lemma sign_input_none st p f t i : nth_error (t_ins t) i = None -> sign_input st p f t i = (SOk, st, t).
+  Proof. intros N. unfold Sign.sign_input. rewrite N. reflexivity. Qed.
+
+  Lemma sign_input_wrong st p f t i inp : Inv st -> p <> right -> nth_error (t_ins t) i = Some inp ->
     exists r st', sign_input st p f t i = (r, st', t) /\ Inv st' /\
-      (forall inp, nth_error (t_ins t) i = Some inp -> in_wit inp = [] -> r <> SOk) /\
-      (forall inp u a h, nth_error (t_ins t) i = Some inp -> env (in_prev inp) = LOut u ->
+      (in_wit inp = [] -> r <> SOk) /\
+      (forall u a h, env (in_prev inp) = LOut u ->
          u_spent u = false -> u_addr u = Some a -> u_height u = Some h ->
          (is_single f = true -> (i < length (t_outs t))%nat) ->
          r = SErr (SKeystore EInvalidPassphrase)).
   Proof.
-    intros I Hp. unfold Sign.sign_input.
-    destruct (nth_error (t_ins t) i) as [inp|] eqn:N.
-    2:{ exists SOk, st. split; [reflexivity|]. split; [exact I|]. split; intros; discriminate. }
+    intros I Hp N. unfold Sign.sign_input. rewrite N.
     destruct (env (in_prev inp)) as [| |u] eqn:E.
-    { eexists; exists st. fin I. - discriminate. - congruence. }
-    { eexists; exists st. fin I. - discriminate. - congruence. }
+    { eexists; exists st. fin I. - discriminate. - discriminate. }
+    { eexists; exists st. fin I. - discriminate. - discriminate. }
     destruct (u_spent u) eqn:Sp.
     { eexists; exists st. fin I. - discriminate. - congruence. }
     destruct (negb (is_single f) || (i <? length (t_outs t))%nat) eqn:C.
@@ -367,19 +368,29 @@ Section Proofs.
     intros Hp. induction idxs as [|i rest IH]; intros st t I.
     - exists SOk, st. split; [reflexivity|]. split; [exact I|]. split; intros; discriminate.
     - cbn [Sign.sign_loop].
-      destruct (sign_input_wrong st p f t i I Hp) as (r1 & st1 & E & I1 & A1 & B1). rewrite E.
-      destruct r1.
-      + destruct (IH st1 t I1) as (r2 & st2 & E2 & I2 & _). rewrite E2.
+      destruct (nth_error (t_ins t) i) as [inp|] eqn:N.
+      + destruct (sign_input_wrong st p f t i inp I Hp N) as (r1 & st1 & E & I1 & A1 & B1). rewrite E.
+        destruct r1.
+        * destruct (IH st1 t I1) as (r2 & st2 & E2 & I2 & _). rewrite E2.
+          exists r2, st2. split; [reflexivity|]. split; [exact I2|]. split.
+          -- intros i' rest' inp' H N' W. injection H as <- <-. rewrite N in N'. injection N' as <-.
+             exfalso. apply (A1 W). reflexivity.
+          -- intros i' rest' inp' u a h H N' Ev Sp Ad Hh Sg. injection H as <- <-.
+             rewrite N in N'. injection N' as <-.
+             specialize (B1 u a h Ev Sp Ad Hh Sg). discriminate.
+        * exists (SErr e), st1. split; [reflexivity|]. split; [exact I1|]. split.
+          -- intros; discriminate.
+          -- intros i' rest' inp' u a h H N' Ev Sp Ad Hh Sg. injection H as <- <-.
+             rewrite N in N'. injection N' as <-. eauto.
+        * exists SPanic, st1. split; [reflexivity|]. split; [exact I1|]. split.
+          -- intros; discriminate.
+          -- intros i' rest' inp' u a h H N' Ev Sp Ad Hh Sg. injection H as <- <-.
+             rewrite N in N'. injection N' as <-. eauto.
+      + rewrite (sign_input_none st p f t i N).
+        destruct (IH st t I) as (r2 & st2 & E2 & I2 & _). rewrite E2.
         exists r2, st2. split; [reflexivity|]. split; [exact I2|]. split.
-        * intros i' rest' inp H N W. inversion H; subst. exfalso. apply (A1 inp N W). reflexivity.
-        * intros i' rest' inp u a h H N Ev Sp Ad Hh Sg. inversion H; subst.
-          specialize (B1 inp u a h N Ev Sp Ad Hh Sg). discriminate.
-      + exists (SErr e), st1. split; [reflexivity|]. split; [exact I1|]. split.
-        * intros; discriminate.
-        * intros i' rest' inp u a h H N Ev Sp Ad Hh Sg. inversion H; subst. eauto.
-      + exists SPanic, st1. split; [reflexivity|]. split; [exact I1|]. split.
-        * intros; discriminate.
-        * intros i' rest' inp u a h H N Ev Sp Ad Hh Sg. inversion H; subst. eauto.
+        * intros i' rest' inp' H N' W. injection H as <- <-. congruence.
+        * intros i' rest' inp' u a h H N' _ _ _ _ _. injection H as <- <-. congruence.
   Qed.
 
   (* any other passphrase, any reachable state: nothing is written into the transaction, nothing
